@@ -137,7 +137,7 @@ def redc_lines(rng, n, m, reps):
 def gen(tier, rng):
     quick = tier == 'quick'
     maxlen = 64 if quick else 256
-    hreps = 1 if quick else 4
+    hreps = 5 if quick else 16
     consts = const_table()
 
     # ---- parameter sets: every constructor, every listed modulus
@@ -169,6 +169,20 @@ def gen(tier, rng):
                 yield f"c08.mul_mod dyn {n} {hx(a)} {hx(b)} {hx(m)}"
                 yield f"c08.mul_mod boxed {n} {hx(a)} {hx(b)} {hx(m)}"
 
+    # ---- crate-internal functions: only when the hooks requested in notes/C08.md exist in /repo AND the harness
+    #      has the ops (neither is the case by default)
+    if os.environ.get('VERIF_C08_HOOKS') == '1':
+        for n in [1, 2, 3, 4, 8]:
+            R = 1 << (64 * n)
+            for m in moduli(rng, n):
+                k = (-pow(m, -1, 1 << 64)) % (1 << 64)
+                for _ in range(4 if quick else 40):
+                    x, y = rng.choice([R - 1, rng.getrandbits(64 * n), operand(rng, n, m)]), value(rng, n)
+                    yield f"c08.hook.amm {n} {hx(x)} {hx(y)} {hx(m)} {hx(k)}"
+                    yield f"c08.hook.amm_by_one {n} {hx(x)} {hx(m)} {hx(k)}"
+                    T = rng.randrange(R * R)
+                    yield f"c08.hook.redc_inner {n} {hx(T % R)} {hx(T // R)} {hx(m)} {hx(k)}"
+
     # ---- histories
     for rep in range(hreps):
         for n in FIXED:
@@ -186,7 +200,7 @@ def gen(tier, rng):
             for _ in range(2):
                 yield hist_line(rng, 'const', n, m, rng.randrange(4, lim + 1))
     # short histories, many: every prefix of small width gets dense coverage
-    for _ in range(300 if quick else 4000):
+    for _ in range(8000 if quick else 100000):
         n = rng.choice([1, 1, 2, 2, 3, 4])
         m = rng.choice(moduli(rng, n))
         kind = rng.choice(['dyn', 'dynv', 'boxed', 'boxedv'])
